@@ -43,3 +43,11 @@ CLAIMS["C11"] = dict(level="exploration",
     technique="exhaustive enumeration of the handshake grid x SNI modes x client-auth, comparing both ends' ConnectionState and 27 exporter triples per successful handshake",
     text="Every successful handshake of the client x server-choice grid (plus SNI removed / IP literal / empty name, and a server requesting a client certificate) has its two ConnectionStates compared field by field, the reported server name compared with the SNI parsed from the wire, and ExportKeyingMaterial compared for 27 (label, context, length) triples.",
     note="One-sided exporter refusals accepted only for the two documented reasons; labels up to 240 bytes (the TLS 1.3 HKDF label limit).")
+CLAIMS["C28"] = dict(level="exploration",
+    technique="exhaustive enumeration of AEAD suites x lengths x sequence positions x call patterns on real connections, comparing keystream XOR plaintext with the captured next record",
+    text="For 8 AEAD suites, every n in {0..64,255,256,1000,16384}, 4 sequence positions and 3 call patterns, GetOutKeystream(n) XOR the next plaintext must equal the ciphertext of the next application-data record after the explicit nonce, and the peer must receive exactly what was sent afterwards.",
+    note="Suite pinned via a custom single-suite spec; dynamic record sizing disabled so that one write is one record.")
+CLAIMS["C35"] = dict(level="exploration",
+    technique="exhaustive single-bit/truncation mutation of tickets over a captured SessionState corpus x key sets, and exhaustive enumeration of key-rotation / clock histories against a reference key-validity model",
+    text="Real SessionStates (TLS 1.2 with/without EMS, TLS 1.3, with/without client certificates, Extra variants) are sealed and opened under 1-3 keys (must serialise identically); every bit flip, truncation and extension of the ticket must yield no state; every bounded history of explicit rotations and of clock advances under auto-managed keys is compared with a reference model of which keys are still configured; TicketKeyFromBytes is compared with installed keys on all single-byte-set inputs.",
+    note="Reference model of auto rotation derived from the documented 24h rotation / 7d lifetime; forged-session resumption is covered by C20.")
